@@ -251,3 +251,21 @@ Proof.
   assert (Hin : In s [PS_DNA; PS_DNA_INTERNAL; PS_RNA; PS_PROTEIN; PS_GON]) by (destruct s; cbn; tauto).
   specialize (H s Hin). unfold default_scheme_ok in H. rewrite Hs in H. exact H.
 Qed.
+
+(* the decoder agrees with Flocq's reading of the same bit patterns on every entry of the built-in schemes: the integer
+   is 2000 * 2^40 times the real value (-1)^s * m * 2^e of the binary32 number (finite computation over the generated
+   tables; 0 for +-0) *)
+From KV Require Import FP.
+From Flocq Require Import IEEE754.Binary.
+Definition decodes_like_flocq (b : N) : bool :=
+  match f32_of_bits b, exact_of_bits b with
+  | B754_zero _ _ _, Some z => z =? 0
+  | B754_finite _ _ s m e _, Some z => (0 <=? e + KX) && (z =? (if s then -1 else 1) * (2000 * Zpos m * 2 ^ (e + KX)))
+  | _, _ => false
+  end.
+Definition params_decode_like_flocq (p : params) : bool :=
+  forallb (forallb decodes_like_flocq) (p_subm p) && decodes_like_flocq (p_gpo p) && decodes_like_flocq (p_gpe p) && decodes_like_flocq (p_tgpe p).
+Lemma builtin_entries_decode_like_flocq :
+  forallb (fun s => match pset_defaults s with Some p => params_decode_like_flocq p | None => false end)
+          [PS_DNA; PS_DNA_INTERNAL; PS_RNA; PS_PROTEIN; PS_GON] = true.
+Proof. vm_compute. reflexivity. Qed.
